@@ -78,6 +78,13 @@ func (k *KVStore) isTableExpired(recycledAt int64) bool {
 
 func (k *KVStore) isCompactionOK(t *table.Table) bool {
 	s := t.Stats()
+	if s.Inuse == 0 && s.Garbage > 0 {
+		// Every entry of this table has been deleted or superseded. Whatever its
+		// garbage ratio is, there is nothing left to keep the table for: a table
+		// that was retired nearly empty (the next entry was a large one) would
+		// otherwise never reach the ratio and stay allocated forever.
+		return true
+	}
 	return float64(s.Garbage) >= float64(s.Allocated)*maxGarbageRatio
 }
 
